@@ -771,6 +771,19 @@ func c19(args []string) int {
 		add(fmt.Sprintf("(EncCase (TNamed \"v2.MOSNConfig\", %s, %s))", pr.val(reflect.ValueOf(cfg).Elem()), j), map[string]interface{}{"kind": "encode", "doc": name})
 		encDocs++
 		run.Sum.Distribution["model:encode-doc"]++
+		// the whole graph on the unmarshal side: the canonical dump b is reloaded by the real Unmarshal; the model's decode
+		// (all hooks: shadow pairs, Listener, FilterChain, inline RouterConfiguration / ClusterManagerConfig) must give the
+		// same value, that value must satisfy the premise of c19_roundtrip_full, and the model's own round trip must hold on it
+		back := &v2.MOSNConfig{}
+		if json.Unmarshal(b, back) == nil {
+			pr2 := newVPrinter(false)
+			pr2.custom = custom
+			bv := pr2.val(reflect.ValueOf(back).Elem())
+			add(fmt.Sprintf("(DecHCase (TNamed \"v2.MOSNConfig\", %s, %s))", j, bv), map[string]interface{}{"kind": "decode-whole", "doc": name})
+			add(fmt.Sprintf("(WfCase (TNamed \"v2.MOSNConfig\", %s))", bv), map[string]interface{}{"kind": "wf-whole", "doc": name})
+			add(fmt.Sprintf("(StableCase (TNamed \"v2.MOSNConfig\", %s))", bv), map[string]interface{}{"kind": "stable-whole", "doc": name})
+			run.Sum.Distribution["model:decode-whole-doc"]++
+		}
 	}
 	for _, p := range sampleFiles("/repo") {
 		rel, _ := filepath.Rel("/repo", p)
